@@ -730,3 +730,28 @@ def nullable_of(rules):
                 nullable.add(n)
                 changed = True
     return nullable
+
+
+def text_is_cyclic(text):
+    """A =>+ A for some non-terminal of the grammar text (repetition operators expanded)."""
+    rules = read_rules(text)
+    nullable = nullable_of(rules)
+    edges = {n: set() for n in rules}
+    for n, alts in rules.items():
+        for a in alts:
+            for i, x in enumerate(a):
+                if x in rules and all(y in nullable for y in a[:i] + a[i + 1:]):
+                    edges[n].add(x)
+    # reachability
+    for n in rules:
+        seen = set()
+        todo = list(edges[n])
+        while todo:
+            x = todo.pop()
+            if x == n:
+                return True
+            if x in seen:
+                continue
+            seen.add(x)
+            todo += list(edges.get(x, ()))
+    return False
